@@ -306,10 +306,13 @@ class Scheduler:
         if me_enabled and lt.yielding:
             alts.append(lt)
             costs.append(self.free_switch_cost if others else 0)
-        for event in self.env_events:
-            if not event.fired and event.enabled(self):
-                alts.append(event)
-                costs.append(event.cost)
+        if alts:
+            # an environment event may happen instead of a thread step; when no thread can
+            # run, time passes (events with a deadline fire when it is reached)
+            for event in self.env_events:
+                if not event.fired and event.enabled(self):
+                    alts.append(event)
+                    costs.append(event.cost)
         return alts, costs
 
     def _choose(self, alts, costs, kind):
